@@ -17,7 +17,8 @@ RULE = ("altitudes -500..20000 m (uniform, plus 0, 11000 +- {0,1e-6,1}, 20000, -
         "continuity at the tropopause, inverse pairs (1e-6 relative for the compressible pairs, 1e-12 for tas<->eas / tas<->mach), strict monotonicity, "
         "CAS=EAS=TAS at sea level, TAS>=EAS and CAS>=EAS for h>=0, distance symmetric and within 0.5 m + 1e-9 d of haversine, bearing in [0,360); "
         "array results equal element-wise scalar results. non-trivial = altitude within 1 m of 0/11000/20000 or above the tropopause, speed > 250 m/s or < 5 m/s, "
-        "antipodal/polar/antimeridian coordinate pairs")
+        "antipodal/polar/antimeridian coordinate pairs"
+        ' Also: whole-number arguments as Python ints, int16/int32/int64/uint16 arrays, an altitude array updated in place between two calls.')
 ASSUMPTIONS = ["ISA reference ref/isa.py (g0/(R L) = 5.25588) checked at import against tabulated ICAO values",
                "compressible round trips judged at 1e-6 relative: the impact-pressure formula cancels at low speed (measured worst 7e-9)"]
 
